@@ -8,10 +8,12 @@ import z3
 from fractions import Fraction
 
 from pyvc.specs import contract, Custom, Const, Int, Real, OneOf, Spec, lift_native
+from pyvc.sym import CDict
 from pyvc.sym import (Sym, SInt, SReal, SBool, SSeq, CList, SObj, SOpt, Len, At, And, Or, Not, Implies, Iff, Ite, ForAll, Exists, eq,
                       compare, arith, wrap, tz, tb, treal, fresh, CheckerError, UNDEF)
 from pyvc.lib_obs import OA, OV, split
 from pyvc.lib import Lib
+from pyvc.sym import select as _sel
 
 REL = "pyerrors/correlators.py"
 
@@ -38,7 +40,7 @@ def corr_make(name, ctx, shape=None, min_T=1):
     ctx.assume(compare(">=", s.length, min_T))
     w = SInt(z3.Int(fresh(name + ".defined_at")))
     # class invariant (the constructor cannot build a correlator without a defined timeslice: IndexError)
-    ctx.assume(And(w >= 0, w < s.length, Not(wrap(z3.Select(s.none, w.t)))))
+    ctx.assume(And(w >= 0, w < s.length, Not(wrap(_sel(s.none, w.t)))))
     return mk_corr_obj(s)
 
 
@@ -121,8 +123,10 @@ def CN(c, t):
     if isinstance(cont, SSeq):
         if cont.none is None:
             return False
-        return wrap(z3.Select(cont.none, tz(t)))
+        return wrap(_sel(cont.none, tz(t)))
     if isinstance(cont, CList):
+        if isinstance(t, int) and not (0 <= t < len(cont.items)):
+            return True
         x = At(cont, t) if not isinstance(t, int) else cont.items[t]
         return split(x)[0]
     t = int(t)
@@ -135,9 +139,11 @@ def CV(c, t):
     """central value of entry t"""
     cont = _content(c)
     if isinstance(cont, SSeq):
-        return wrap(z3.Select(cont.arr, tz(t)))
+        return wrap(_sel(cont.arr, tz(t)))
     if isinstance(cont, CList):
         if isinstance(t, int):
+            if not (0 <= t < len(cont.items)):
+                return UNDEF
             v = split(cont.items[t])[1]
             return UNDEF if v is None else v
         cur = None
@@ -213,7 +219,7 @@ def _all_none(data):
     if isinstance(data, SSeq):
         if data.none is None:
             return compare("==", data.length, 0)
-        return ForAll(0, data.length, lambda t: wrap(z3.Select(data.none, tz(t))))
+        return ForAll(0, data.length, lambda t: wrap(_sel(data.none, tz(t))))
     return all(x is None for x in data)
 
 
@@ -459,9 +465,9 @@ def _binop_requires(op):
 def content_same(x, y):
     """two entry lists agree (definedness and values)"""
     def nn(s, t):
-        return wrap(z3.Select(s.none, tz(t))) if s.none is not None else False
+        return wrap(_sel(s.none, tz(t))) if s.none is not None else False
     return And(Len(x) == Len(y), ForAll(0, Len(x), lambda t: And(Iff(nn(x, t), nn(y, t)),
-                                                                  wrap(z3.Select(x.arr, tz(t))) == wrap(z3.Select(y.arr, tz(t))))))
+                                                                  wrap(_sel(x.arr, tz(t))) == wrap(_sel(y.arr, tz(t))))))
 
 
 for _op in OPS:
@@ -684,4 +690,100 @@ contract(
     ensures=lambda a, r: {},
     crosscheck=False,
     note="frame condition only: neither the correlator nor the caller's print_range list is written (the text itself is opaque)",
+)
+
+
+# ---------------------------------------------------------------------------------------------------
+# C05 on correlators: Corr.reweight / Corr.correlate lift the observable-level operation timeslice-wise and hand
+# the normalisation mode through.  The observable-level operations are uninterpreted here (their meaning is the
+# contracts of contracts/obs_ops.py); what is decided is the lifting.
+
+RWF = z3.Function("reweight_value", z3.RealSort(), z3.RealSort(), z3.BoolSort(), z3.RealSort())
+COF = z3.Function("correlate_value", z3.RealSort(), z3.RealSort(), z3.RealSort())
+
+
+def _rw_stub_result(a, ctx):
+    kw = a.kwargs.d if hasattr(a.kwargs, "d") else a.kwargs
+    flag = bool(kw.get("all_configs"))
+    items = []
+    for x in (a.obs.items if isinstance(a.obs, CList) else [a.obs]):
+        xv = split(x)[1]
+        items.append(OV(wrap(RWF(treal(PV(a.weight)), treal(xv), z3.BoolVal(flag)))))
+    return CList(items, "list")
+
+
+_REWEIGHT_STUB = contract(
+    "pyerrors/obs.py::reweight", name="pyerrors/obs.py::reweight[value stub]", props=[], assumed=True, lib="obs", register=False,
+    params=dict(weight=Custom(lambda n, c, s: None), obs=Custom(lambda n, c, s: None), kwargs=Custom(lambda n, c, s: None)),
+    result=_rw_stub_result,
+    note="inside Corr.reweight the observable-level reweight is an uninterpreted function of (weight, observable, all_configs)",
+)
+
+_CORRELATE_STUB = contract(
+    "pyerrors/obs.py::correlate", name="pyerrors/obs.py::correlate[value stub]", props=[], assumed=True, lib="obs", register=False,
+    params=dict(obs_a=Custom(lambda n, c, s: None), obs_b=Custom(lambda n, c, s: None)),
+    result=lambda a, ctx: OV(wrap(COF(treal(PV(a.obs_a)), treal(PV(a.obs_b))))),
+    note="inside Corr.correlate the observable-level correlate is an uninterpreted function of its two operands",
+)
+
+
+def _rwf(w, x, flag):
+    if isinstance(w, Sym) or isinstance(x, Sym):
+        return wrap(RWF(treal(w), treal(x), z3.BoolVal(bool(flag))))
+    return UNDEF
+
+
+def _corr_rw_post(a, r):
+    c = a.self
+    T = Tn(c)
+    flag = bool((a.kwargs.d if hasattr(a.kwargs, "d") else a.kwargs).get("all_configs"))
+    out = {"is-corr": is_corr(r), "T": Tn(r) == T,
+           "undefined-iff": ForAll(0, T, lambda t: Iff(CN(r, t), CN(c, t)))}
+    if isinstance(c, SObj):
+        out["timeslice-wise+mode"] = ForAll(0, T, lambda t: Implies(Not(CN(c, t)), CV(r, t) == _rwf(PV(a.weight), CV(c, t), flag)))
+    else:
+        # native: each defined slice equals the observable-level reweight with the same normalisation mode
+        from pyvc.native import repo_module
+        pe = repo_module("pyerrors.obs")
+        import numpy as np
+        ok = True
+        for t in range(c.T):
+            if c.content[t] is None:
+                continue
+            exp = pe.reweight(a.weight, [c.content[t][0]], **a.kwargs)[0]
+            got = r.content[t][0]
+            ok = ok and bool(np.isclose(got.value, exp.value)) and all(np.allclose(got.deltas[n], exp.deltas[n]) for n in exp.names)
+        out["timeslice-wise+mode"] = ok
+    return out
+
+
+class WeightSpec(Spec):
+    def make(self, name, ctx, shape=None):
+        return OV(SReal(z3.Real(fresh(name))))
+
+    def native(self, value, ev):
+        return _native_weight()
+
+    def random(self, rng, shape=None):
+        return _native_weight()
+
+
+def _native_weight():
+    import numpy as np
+    from pyvc.native import repo_module
+    pe = repo_module("pyerrors.obs")
+    rng = np.random.default_rng(3)
+    # defined on more configurations than the correlator entries (which live on 1..10): the two normalisations differ
+    return pe.Obs([1.0 + 0.2 * rng.normal(size=20)], ["ens|r1"], idl=[range(1, 21)])
+
+
+contract(
+    REL + "::Corr.reweight", props=["C05"], lib="obs",
+    params=dict(self=CorrSpec(), weight=WeightSpec(),
+                kwargs=OneOf(all=Custom(lambda n, c, s: CDict({"all_configs": True}), native=lambda v, ev: {"all_configs": True}),
+                             own=Custom(lambda n, c, s: CDict(), native=lambda v, ev: {}))),
+    overrides={"pyerrors/obs.py::reweight": _REWEIGHT_STUB},
+    ensures=_corr_rw_post, result=new_corr, crosscheck=False,
+    gen=lambda rng, case: {"self": corr_random(rng), "weight": _native_weight(),
+                           "kwargs": {"all_configs": True} if case["kwargs"] == "all" else {}},
 )
